@@ -139,11 +139,11 @@ def run(F, R, tier):
     n_t = 0
     for r in rets:
         g = guards_at(F, r)
-        in_types_arm = any(x.kind == "cond" and x.pol and expr_text(x.node) == "prefer_types" for x in g)
+        in_types_arm = any(x.kind == "cond" and x.pol and peel(x.node).get("lid") == b["body"]["params"][2].get("lid") for x in g)
         if not in_types_arm:
             continue
         n_t += 1
-        loaded = any(x.kind == "pat" and x.pol and "graph::ModuleSlot::Module" in pat_text(x.pat) and "module_slots" in expr_text(x.scrut) and x.scrut is not None and x.scrut.get("k") == "MethodCall" for x in g if x.scrut is not None and "resolved_specifier" in expr_text(x.scrut))
+        loaded = any(x.kind == "pat" and x.pol and "graph::ModuleSlot::Module" in pat_text(x.pat) and mentions_field(x.scrut, "module_slots") and x.scrut.get("k") == "MethodCall" and any(mentions_call(y, ["ModuleGraph::resolve"]) for y in through_locals(peel_value(x.scrut["args"][0]))) for x in g if x.scrut is not None)
         R.ob("C14-c", "types module is returned only when it is loaded", loaded,
              "resolve_dependency_from_dep returns the types dependency without checking that its slot holds a module (must fall back to the code module)", where(r))
     R.floor("C14-c prefer-types early returns", n_t, 1)
